@@ -36,7 +36,7 @@ PROPS = {
                  'the first-order-rotation velocity integral (derived by polynomial integration)'],
         undecided=['order of accuracy on general (sinusoidal) signals (a limit statement)']),
     'C17': dict(
-        rules=[rot.rot_series, rot.rot_exp, rot.euler_inv, rot.euler_conv, errmodel.es_first,
+        rules=[names.len_dispatch, rot.rot_series, rot.rot_exp, rot.euler_inv, rot.euler_conv, errmodel.es_first,
                geo.unit_const, lambda c: forms.form_agree(c, ('error_model', 'transform'), 2)],
         decided=['small-angle arm is the Maclaurin truncation of the closed form and continuous '
                  'across the branch to 2^-53',
@@ -177,7 +177,7 @@ PROPS = {
         undecided=['exactness of scipy.linalg.expm', 'symmetry/PSD of the computed product in '
                    'floating point', 'composition over partitions (numerical)']),
     'C19': dict(
-        rules=[purity.pur_rules, purity.rng_src, purity.rng_fwd, purity.sch_rules, dtype.dtype_inherit,
+        rules=[names.len_dispatch, purity.pur_rules, purity.rng_src, purity.rng_fwd, purity.sch_rules, dtype.dtype_inherit,
                forms.form_agree,
                forms.form_agree_tables, forms.util_prod, layout.est_rules, sensor.sm_accum,
                diff.wrap_rules, smmodel.sm_model, smmodel.sm_params, layout.result_form],
@@ -209,6 +209,7 @@ PROPS = {
         rules=[sensor.sm_names, sensor.sm_count, sensor.sm_accum, sensor.sm_sign, sensor.sm_apply,
                sensor.sm_gate, sensor.sm_table, purity.rng_src, purity.rng_fwd, layout.corr_pair,
                smmodel.sm_model, smmodel.sm_params, smmodel.sm_draw, sensor.sm_first_dt,
+               sensor.sm_const,
                layout.layout_state,
                layout.layout_noise, layout.layout_prov, layout.assembly, layout.call_roles],
         decided=['the simulator\'s parameter table, executed for a covering family of masks: '
@@ -228,7 +229,7 @@ PROPS = {
                  'exponents of bias / white noise / bias walk'],
         undecided=['empirical variances of simulated noise', 'numerical inverse property']),
     'C11': dict(
-        rules=[lambda c: purity.pur_arg(c, ('filters',)), layout.layout_state, layout.layout_noise, layout.layout_prov, layout.p0_form,
+        rules=[lambda c: purity.pur_arg(c, ('filters',)), sensor.sm_const, layout.layout_state, layout.layout_noise, layout.layout_prov, layout.p0_form,
                layout.rec_order, kal.q_psd, geo.unit_const,
                lambda c: sched.sched_epochs(c, (sched.FF,)),
                lambda c: sched.sched_mcursor(c, (sched.FF,)),
@@ -257,6 +258,7 @@ PROPS = {
                    'independent batch (Gauss-Markov) solution']),
     'C12': dict(
         rules=[lambda c: purity.pur_arg(c, ('filters',)), layout.est_rules, sensor.sm_accum, sensor.sm_sign,
+               sensor.sm_const,
                lambda c: sched.sched_handover(c, (sched.FB,)), kal.q_psd, idxdom.idx_domain,
                interp.interp_rules, interp.fb_epoch, layout.corr_pair,
                lambda c: sched.sched_epochs(c, (sched.FB, sched.FF)),
@@ -285,7 +287,7 @@ PROPS = {
         undecided=['bit-identity with plain integration (floating point: solve(I, v - 0*dt))',
                    'second-order agreement with the feedforward filter']),
     'C16': dict(
-        rules=[kernel.sib_grav, geo.geo_frame, geo.geo_perturb, geo.geo_curv, geo.parity,
+        rules=[names.len_dispatch, kernel.sib_grav, geo.geo_frame, geo.geo_perturb, geo.geo_curv, geo.parity,
                geo.role_radii, geo.parity_ecef, geo.olson_rules, geo.wgs_const,
                lambda c: forms.form_agree(c, ('earth', 'transform')),
                lambda c: dtype.dtype_inherit(c, ('transform', 'earth'))],
